@@ -42,6 +42,8 @@ func (c *c06Case) conditions() []string {
 	switch c.Marker {
 	case "absent", "elsewhere":
 		l = append(l, "marker-"+c.Marker)
+	case "hash-absent":
+		l = append(l, "marker-absent")
 	case "not-configured-absent":
 		// Banner check is skipped on asa, ios, linux. PAN-OS marker
 		// (display-name) does not depend on the configured banner text.
@@ -90,7 +92,11 @@ func buildC06(c *c06Case) *liveCase {
 	if strings.HasPrefix(c.Marker, "not-configured") {
 		lc.CheckBanner = ""
 	}
-	markerShown := c.Marker == "present" || c.Marker == "not-configured"
+	if strings.HasPrefix(c.Marker, "hash-") {
+		// A configured banner regexp that starts with '#'.
+		lc.CheckBanner = `#*This.device.is.managed.by.NetSPoC`
+	}
+	markerShown := c.Marker == "present" || c.Marker == "not-configured" || c.Marker == "hash-present"
 	switch c.Type {
 	case "asa", "ios":
 		lc.Cli.Hostname = host
@@ -164,7 +170,7 @@ func enumerateC06() []*c06Case {
 		for _, fe := range []string{"drc", "do-approve"} {
 			for sc := 0; sc < nsc; sc++ {
 				hosts := []string{"exact", "other", "prefix", "suffix", "case", "domain"}
-				markers := []string{"present", "absent", "elsewhere", "not-configured", "not-configured-absent"}
+				markers := []string{"present", "absent", "elsewhere", "not-configured", "not-configured-absent", "hash-present", "hash-absent"}
 				has := []string{""}
 				if typ == "panos" {
 					has = []string{"", "active", "passive", "active-primary", "active-secondary", "passive+active", "passive+passive"}
